@@ -53,7 +53,7 @@ theorem storeInv_foundStop (s : Stack) (a : Addr) (k : SvcKey) (hi : StoreInv s)
     simp only []
     have hk : k ∈ keysAt s a := by
       have := findKey_some hf; rw [tget_touch] at this; exact this
-    have hd := disc_notifyService (({ s with found := (s.found.touch a).set a (TStore.eraseKey (· == ·) ((s.found.touch a).get a) k) } : Stack).cancelTimer isSvcExpiry old.timer) false k a
+    have hd := disc_notifyService (({ s with found := (s.found.touch a).set a (TStore.eraseKey (· == ·) ((s.found.touch a).get a) k) } : Stack).cancelTimer (isSvcExpiryFor a k) old.timer) false k a
     exact storeInv_erase_notify s _ a k hi hk (congrArg Prod.fst hd) (congrArg Prod.snd hd)
 
 /-- expiry callback -/
@@ -80,10 +80,10 @@ theorem storeInv_foundRefresh (s : Stack) (ttl : Nat) (a : Addr) (k : SvcKey) (h
     have hk : k ∈ keysAt s a := by
       have := findKey_some hf; rw [tget_touch] at this; exact this
     -- found' = set a (erase k ++ [k]); log unchanged
-    have hd : disc ((({ s with found := s.found.touch a } : Stack).cancelTimer isSvcExpiry old.timer).armTtl ttl (.expiredSvc a k)).1
+    have hd : disc ((({ s with found := s.found.touch a } : Stack).cancelTimer (isSvcExpiryFor a k) old.timer).armTtl ttl (.expiredSvc a k)).1
         = (s.found.touch a, s.storeLog) := by rw [disc_armTtl, disc_cancelTimer]; rfl
-    have hfound : ((({ s with found := s.found.touch a } : Stack).cancelTimer isSvcExpiry old.timer).armTtl ttl (.expiredSvc a k)).1.found = s.found.touch a := congrArg Prod.fst hd
-    have hlog : ((({ s with found := s.found.touch a } : Stack).cancelTimer isSvcExpiry old.timer).armTtl ttl (.expiredSvc a k)).1.storeLog = s.storeLog := congrArg Prod.snd hd
+    have hfound : ((({ s with found := s.found.touch a } : Stack).cancelTimer (isSvcExpiryFor a k) old.timer).armTtl ttl (.expiredSvc a k)).1.found = s.found.touch a := congrArg Prod.fst hd
+    have hlog : ((({ s with found := s.found.touch a } : Stack).cancelTimer (isSvcExpiryFor a k) old.timer).armTtl ttl (.expiredSvc a k)).1.storeLog = s.storeLog := congrArg Prod.snd hd
     refine storeInv_step s _ [] hi (by simpa using hlog) ?_ ?_
     · intro a'
       unfold keysAt; simp only [hfound]
@@ -142,15 +142,15 @@ theorem storeInv_foundRefresh (s : Stack) (ttl : Nat) (a : Addr) (k : SvcKey) (h
         · rw [tget_set_other _ _ _ _ ha, tget_touch, tget_touch]
 
 theorem disc_flush_fold (a : Addr) (es : List (TSEntry SvcKey)) (st : Stack) :
-    disc (es.foldl (fun s e => (s.cancelTimer isSvcExpiry e.timer).notifyService false e.key a) st) =
+    disc (es.foldl (fun s e => (s.cancelTimer (isSvcExpiryFor a e.key) e.timer).notifyService false e.key a) st) =
       (st.found, st.storeLog ++ es.map (fun e => (false, e.key, a))) := by
   induction es generalizing st with
   | nil => simp [disc]
   | cons e t ih =>
     rw [List.foldl_cons, ih]
-    have hd := disc_notifyService (st.cancelTimer isSvcExpiry e.timer) false e.key a
-    have h1 : (notifyService (st.cancelTimer isSvcExpiry e.timer) false e.key a).found = st.found := congrArg Prod.fst hd
-    have h2 : (notifyService (st.cancelTimer isSvcExpiry e.timer) false e.key a).storeLog = st.storeLog ++ [(false, e.key, a)] :=
+    have hd := disc_notifyService (st.cancelTimer (isSvcExpiryFor a e.key) e.timer) false e.key a
+    have h1 : (notifyService (st.cancelTimer (isSvcExpiryFor a e.key) e.timer) false e.key a).found = st.found := congrArg Prod.fst hd
+    have h2 : (notifyService (st.cancelTimer (isSvcExpiryFor a e.key) e.timer) false e.key a).storeLog = st.storeLog ++ [(false, e.key, a)] :=
       congrArg Prod.snd hd
     rw [h1, h2]; simp
 
@@ -159,12 +159,12 @@ theorem storeInv_foundStopAllFor (s : Stack) (a : Addr) (hi : StoreInv s) : Stor
   unfold foundStopAllFor
   simp only []
   have hd := disc_flush_fold a ((s.found.touch a).get a) ({ s with found := (s.found.touch a).set a [] } : Stack)
-  have hfound : (((s.found.touch a).get a).foldl (fun s e => (s.cancelTimer isSvcExpiry e.timer).notifyService false e.key a)
+  have hfound : (((s.found.touch a).get a).foldl (fun s e => (s.cancelTimer (isSvcExpiryFor a e.key) e.timer).notifyService false e.key a)
       ({ s with found := (s.found.touch a).set a [] } : Stack)).found = (s.found.touch a).set a [] := congrArg Prod.fst hd
-  have hlog : (((s.found.touch a).get a).foldl (fun s e => (s.cancelTimer isSvcExpiry e.timer).notifyService false e.key a)
+  have hlog : (((s.found.touch a).get a).foldl (fun s e => (s.cancelTimer (isSvcExpiryFor a e.key) e.timer).notifyService false e.key a)
       ({ s with found := (s.found.touch a).set a [] } : Stack)).storeLog
       = s.storeLog ++ ((s.found.touch a).get a).map (fun e => (false, e.key, a)) := congrArg Prod.snd hd
-  have hkeys : ∀ a', keysAt (((s.found.touch a).get a).foldl (fun s e => (s.cancelTimer isSvcExpiry e.timer).notifyService false e.key a)
+  have hkeys : ∀ a', keysAt (((s.found.touch a).get a).foldl (fun s e => (s.cancelTimer (isSvcExpiryFor a e.key) e.timer).notifyService false e.key a)
       ({ s with found := (s.found.touch a).set a [] } : Stack)) a' = if a' = a then [] else keysAt s a' := by
     intro a'; unfold keysAt; rw [hfound]
     by_cases ha : a' = a
@@ -206,7 +206,7 @@ theorem storeInv_foundStopAll (s : Stack) (hi : StoreInv s) : StoreInv s.foundSt
         intro a'
         unfold foundStopAllFor; simp only []
         have hd := disc_flush_fold q.1 ((st.found.touch q.1).get q.1) ({ st with found := (st.found.touch q.1).set q.1 [] } : Stack)
-        have hfound : (((st.found.touch q.1).get q.1).foldl (fun s e => (s.cancelTimer isSvcExpiry e.timer).notifyService false e.key q.1)
+        have hfound : (((st.found.touch q.1).get q.1).foldl (fun s e => (s.cancelTimer (isSvcExpiryFor q.1 e.key) e.timer).notifyService false e.key q.1)
             ({ st with found := (st.found.touch q.1).set q.1 [] } : Stack)).found = (st.found.touch q.1).set q.1 [] := congrArg Prod.fst hd
         unfold keysAt; rw [hfound]
         by_cases ha : a' = q.1
